@@ -149,7 +149,10 @@ fn check(case: &Case, obs: &mut Obs) -> Verdict {
                 b[0] = 4;
             }
             match ser.reserialize(&b) {
-                Ok(_) => ensure!(*len == size, "C12/length/accepted-wrong-length", "{}: a {}-byte input was accepted, the size is {}", tname, len, size),
+                Ok(out) => {
+                    ensure!(*len == size, "C12/length/accepted-wrong-length", "{}: a {}-byte input was accepted, the size is {}", tname, len, size);
+                    ensure!(same_up_to_clamping(kem, kind, &out, &b), "C12/canonical/reserialize-differs", "{}: accepted {} but re-serialised it as {}", tname, hex_short(&b), hex_short(&out));
+                }
                 Err(e) => {
                     if *len != size {
                         ensure!(
@@ -209,7 +212,7 @@ impl Property for P {
     }
     fn rule(&self) -> String {
         "Generated for the 16 serialisable types (4 KEMs x {public, private, encapsulated key} + 4 AEAD tag types): values from derive_keypair/encap/seal; accepted byte strings (C09's constructed NIST encodings, arbitrary 32 bytes for X25519, arbitrary Nt bytes for tags); inputs and write_exact buffers of every length. \
-         Swept: every length 0..=2*size+2 for all 16 types, for from_bytes and for write_exact. \
+         Swept: every length 0..=2*size+2 for all 16 types, for from_bytes and for write_exact; every constructed NIST encoding of C09's vocabulary and 24 random right-length strings per type (whatever is accepted must re-serialise identically). \
          Oracle: size()/to_bytes().len() equal the RFC 9180 table; from_bytes(to_bytes(v)) == v (Eq for keys, bytes otherwise); to_bytes(from_bytes(b)) == b for accepted b (X25519 private key: up to clamping); wrong length => IncorrectInputLength(size, len); write_exact panics iff buf.len() != size and otherwise writes to_bytes(). \
          Non-trivial: a non-default curve or tag type, or a length != size."
             .into()
@@ -227,7 +230,7 @@ impl Property for P {
                     1 => {
                         let bytes = if kem != KemId::X25519 && kind != SerKind::Tag {
                             let list = if kind == SerKind::Sk { c09::constructed_scalar(kem, seed) } else { c09::constructed_public(kem, seed) };
-                            let list: Vec<_> = list.into_iter().filter(|(h, _)| !h.starts_with("tag-byte")).collect();
+                            let list: Vec<_> = list.into_iter().filter(|(h, _)| !h.starts_with("tag-byte") && !h.starts_with("scalar:n-bitflip")).collect();
                             list[crate::engine::pick_index(idx, list.len())].1.clone()
                         } else {
                             gen::fill(size, (seed % 12) as u8, seed)
@@ -259,7 +262,30 @@ impl Property for P {
             }
         }
         let _ = r::KemId::ALL;
-        vec![("derived_values".into(), derived), ("from_bytes_every_length".into(), lens), ("write_exact_every_buffer_length".into(), bufs)]
+        // every constructed NIST encoding (C09's vocabulary) and random right-length strings for all
+        // 16 types: whatever is accepted must re-serialise to the same bytes
+        let mut accepted = Vec::new();
+        for kem in c09::NIST {
+            for kind in [SerKind::Pk, SerKind::Enc] {
+                for (_, b) in c09::constructed_public(kem, 12) {
+                    accepted.push(Case { kem, aead: AeadId::ChaCha, kind, op: Op::Accepted { bytes: Bytes(b) } });
+                }
+            }
+            for (_, b) in c09::constructed_scalar(kem, 12) {
+                accepted.push(Case { kem, aead: AeadId::ChaCha, kind: SerKind::Sk, op: Op::Accepted { bytes: Bytes(b) } });
+            }
+        }
+        for (kem, aead, kind) in all_types() {
+            let size = rfc_size(kem, aead, kind);
+            for s in 0..24u64 {
+                let mut b = gen::fill(size, (s % 12) as u8, 1200 + s);
+                if s % 2 == 0 && kem != KemId::X25519 && kind != SerKind::Tag && kind != SerKind::Sk && !b.is_empty() {
+                    b[0] = 4;
+                }
+                accepted.push(Case { kem, aead, kind, op: Op::Accepted { bytes: Bytes(b) } });
+            }
+        }
+        vec![("derived_values".into(), derived), ("constructed_and_random_right_length_inputs".into(), accepted), ("from_bytes_every_length".into(), lens), ("write_exact_every_buffer_length".into(), bufs)]
     }
     fn check(&self, case: &Case, obs: &mut Obs) -> Verdict {
         check(case, obs)
